@@ -137,13 +137,13 @@ func (st *e1State) genOp(rt *rapid.T) model.Op {
 	case model.CSetDefaultExp:
 		o.D = pick(rt, []int64{model.NoExpiration, model.DefaultExpiration, -1, 0, 1, 9, 300, 1000000000}, "newDefault")
 	case model.CSetCallback:
-		o.On = rapid.Bool().Draw(rt, "install")
+		o.On = irange(rt, 0, 2, "install") > 0
+		if o.On {
+			o.N = irange(rt, 1, 2, "whichCallback") // two distinct callbacks: the ledger knows which one fired
+		}
 	case model.CRange:
-		switch irange(rt, 0, 5, "stopEarly") {
-		case 0, 1:
+		if irange(rt, 0, 2, "stopEarly") == 0 {
 			o.N = irange(rt, 1, 6, "stopAfter")
-		case 2:
-			o.N = -1 // nil visitor
 		}
 	case model.HAdvance:
 		// land exactly on, one tick before or one tick after the expiry of a live entry
@@ -202,7 +202,7 @@ func e1Exec(api adapt.API, o *model.Op) (model.Res, *vs.Failure) {
 		c0 = int(api.Do(&cnt).T)
 	}
 	var res model.Res
-	r := vs.Run(&vs.NonPreemptive{Order: []int{0}}, 400000, func() { res = adapt.SafeDo(api, o) })
+	r := vs.Run(&vs.NonPreemptive{Order: []int{0}}, 6000000, func() { res = adapt.SafeDo(api, o) })
 	if r.Fail != nil {
 		return res, r.Fail
 	}
@@ -245,9 +245,6 @@ func (st *e1State) step(o model.Op, hist *[]string) *Violation {
 	}
 	if res.Note != "" && res.Note != "unsupported" {
 		return e1Violation(st.f.prop, st.c, "direct", "callback-note", fmt.Sprintf("%s: %s", o.String(), res.Note), *hist)
-	}
-	if o.K == model.CSetCallback && res.OK != o.On {
-		return e1Violation(st.f.prop, st.c, "sequential", "seq:EvictedCallback-getter", fmt.Sprintf("after %s the getter EvictedCallback() reports installed=%v", o.String(), res.OK), *hist)
 	}
 	if err := m.Step(&o, &res); err != nil {
 		return e1Violation(st.f.prop, st.c, "sequential", "seq:"+o.K.String(), fmt.Sprintf("step %d %s -> %s: %v", len(st.c.Ops)-1, o.String(), res.String(), err), *hist)
